@@ -60,7 +60,9 @@ Lemma compound_assign_refuted :
   spec_result (dm_of (cg_ctx orig_lp64)) [TInt; TUInt] [-7; 2] (XAssignOp BDiv 0 (XVar 1)) = Some 2147483644 /\
   tree_result sem_orig orig_lp64 [TInt; TUInt] TInt (XAssignOp BDiv 0 (XVar 1)) [-7; 2] = ODone (-3) /\
   value_refuted sem_orig orig_ilp32 [TChar; TInt] TInt (XAssignOp BDiv 0 (XVar 1)) [100; 300] = true /\
-  value_refuted (sem_c11 (cg_ctx orig_lp64)) orig_lp64 [TInt; TUInt] TInt (XAssignOp BDiv 0 (XVar 1)) [-7; 2] = true.
+  value_refuted (sem_c11 (cg_ctx orig_lp64)) orig_lp64 [TInt; TUInt] TInt (XAssignOp BDiv 0 (XVar 1)) [-7; 2] = true /\
+  (* with fixes/C01-compound-assign.diff *)
+  tree_result (sem_c11a (cg_ctx orig_lp64)) orig_lp64 [TInt; TUInt] TInt (XAssignOp BDiv 0 (XVar 1)) [-7; 2] = ODone 2147483644.
 Proof. vm_compute. repeat split. Qed.
 
 (* ---- the targets as exported on this run ---- *)
